@@ -141,6 +141,12 @@ func genCase(t *rapid.T) *Case {
 			}
 		}
 	}
+	if rapid.IntRange(0, 5).Draw(t, "suffix") == 0 {
+		// a stack decoded from one of its inner layers on (capture above the link layer, tunnel payload)
+		if b, slt, ok := gen.StackSuffix(t); ok {
+			c.LT, c.Name, c.Data = int(slt), slt.String(), b
+		}
+	}
 	if len(c.Data) > 3000 && rapid.IntRange(0, 19).Draw(t, "keepbig") > 0 {
 		// a 64 KiB input can decode into ~20000 layers; 24 rendered comparisons of such packets cost seconds, so
 		// most large inputs are cut (the few that stay keep the class populated)
